@@ -723,8 +723,13 @@ struct Digit {
     }
     /////////////////////////////////////////
     template <typename Float_T, typename Stream_T, typename Number_T>
-    static void realToString(Stream_T &stream, const Number_T number, const RealFormatInfo format) {
+    static void realToString(Stream_T &stream, const Number_T number, RealFormatInfo format) {
         constexpr SizeT32 number_size = sizeof(Number_T);
+
+        if ((format.Precision == 0) && (format.Type != RealFormatType::Fixed) &&
+            (format.Type != RealFormatType::SemiFixed)) {
+            format.Precision = 1U; // Same as std::defaultfloat: a precision of zero means one digit.
+        }
 
         using Info_T = DigitUtils::RealNumberInfo<Float_T, number_size>;
         // 4.9406564584124654e-324 needs about 1216 bits to store all its digits.
